@@ -283,13 +283,18 @@ def worker(task):
                                            "clause": ob.info.get("clause", "") + (f" [raised at {ob.info['where'][0]} line {ob.info['where'][1]}]" if ob.info.get("where") else ""), "raised": ob.info.get("raised")})
                 continue
             status, solver, dt, model, smt2 = solve_obligation(ob, budget_s, tmpdir, re.sub(r"\W+", "_", name))
+            if status == "unknown" and mutation is None and failures == 0:
+                # one more attempt with three times the budget before the function is declared undecided
+                # (solver times vary with machine load; a verdict must not)
+                status, solver, dt2, model, smt2 = solve_obligation(ob, 3 * budget_s, tmpdir, re.sub(r"\W+", "_", name) + "_retry")
+                dt += dt2
             if status != "unsat":
                 failures += 1
             rec = {"name": name, "kind": ob.kind, "status": status, "solver": solver, "time": round(dt, 3),
                    "clause": ob.info.get("clause", "") + (f" [raised at {ob.info['where'][0]} line {ob.info['where'][1]}]" if ob.info.get("where") else ""),
                    "raised": ob.info.get("raised")}
             if tier == "thorough" and status == "unsat" and solver.startswith("z3") and mutation is None:
-                rec["confirm"] = confirm_unsat(ob, budget_s, tmpdir, re.sub(r"\W+", "_", name))
+                rec["confirm"] = confirm_unsat(ob, min(budget_s, 10.0), tmpdir, re.sub(r"\W+", "_", name))
             if status == "sat":
                 if model is not None:
                     try:
@@ -669,6 +674,56 @@ def main(argv=None):
                 reported.add(("bounded", b["name"]))
                 lines.append(f"VIOLATION property={prop} replay={path}" + ("" if ok else " no-failing-input-found"))
 
+    # engine-vs-CPython differential: contracts that verified are also *executed* on samples of their pre-condition
+    # (the witness search of the replays, run on the unchanged function).  A sample that violates a verified
+    # contract means the engine or a builtin model is wrong: the check is then inconsistent (exit 3), not green.
+    sampling = {"contracts": 0, "samples_satisfying_pre": 0, "violations": []}
+    if not violations and not undecided:
+        eligible = []
+        for key in sorted(results):
+            c = db.contracts[key]
+            gh = c.ghost and all(isinstance(v, str) and v in ("int", "str", "bool") for v in c.ghost.values())
+            ok_params = all(k in ("self", "cls") or not callable(v) for k, v in c.params.items()) and \
+                all(not isinstance(v, str) or v.strip() in ("str", "int", "bool", "str|None", "dict[str|None,str]", "dict[str,str]")
+                    or k in ("self", "cls") or v.startswith("opaque:type") for k, v in c.params.items())
+            if gh and ok_params and not c.replay and not c.trusted:
+                eligible.append(key)
+        rnd = __import__("random").Random(seed)
+        if tier == "quick" and len(eligible) > 24:
+            eligible = rnd.sample(eligible, 24)
+        tries = 60 if tier == "quick" else 400
+        sdir = Path(tempfile.mkdtemp(prefix="pyvc-sample-"))
+
+        def one(key):
+            c = db.contracts[key]
+            params = {k: (v if not callable(v) else "object") for k, v in c.params.items()}
+            script = sdir / (re.sub(r"\W+", "_", key) + ".py")
+            script.write_text(
+                "import os, sys\n"
+                f"sys.path[:0] = [os.environ.get('VERIF_REPO', '/repo'), {str(VERIF / 'contracts')!r}]\n"
+                "import replay_support as rs\n"
+                f"sys.exit(rs.search({key!r}, {list(c.requires)!r}, {dict(c.ghost)!r}, {params!r}, "
+                f"{ {k: (v if v is True else str(v)) for k, v in c.raises.items()}!r}, "
+                f"{[list(e) for e in c.ensures if isinstance(e[1], str)]!r}, tries={tries}, seed={seed}))\n")
+            rc, outp = run_replay(script)
+            return key, rc, outp
+
+        from concurrent.futures import ThreadPoolExecutor
+
+        with ThreadPoolExecutor(max_workers=16) as tp:
+            for key, rc, outp in tp.map(one, eligible):
+                sampling["contracts"] += 1
+                m = re.search(r"(\d+) samples satisfied", outp)
+                if m:
+                    sampling["samples_satisfying_pre"] += int(m.group(1))
+                if rc == 1 and "REPRODUCED" in outp:
+                    sampling["violations"].append({"contract": key, "output": outp[-500:]})
+        import shutil as _sh
+
+        _sh.rmtree(sdir, ignore_errors=True)
+        for v in sampling["violations"]:
+            guard_fail.append(f"a sample of the pre-condition violates the VERIFIED contract {v['contract']} (engine or builtin model wrong): {v['output'][-200:]}")
+
     wall = time.time() - t_start
     evidence = {
         "property_id": prop, "tier": tier, "seed": seed, "level": "proof",
@@ -696,6 +751,7 @@ def main(argv=None):
             "solver_disagreements": disagreements,
             "engine_notes": sorted(notes),
             "builtin_model_crosscheck": crosscheck,
+            "native_sampling_of_verified_contracts": sampling,
         },
         "assumptions": sorted(set(meta.get("assumptions", [])) | contract_assumptions
                               | {f"lemma schema about CPython builtins instantiated as a hint (trusted; sampled against CPython by tools/crosscheck.py): {n}"
